@@ -81,9 +81,9 @@ def spatial_index(ctx, bins, thorough):
     # R1: theorems of the specification over every history in a bound, all grid queries
     rng = random.Random(ctx.seed)
     ctx.tlc("spatial/SpatialIndex.tla", "spatial/SpatialIndex_model.cfg", name="R1 SpatialIndex 2d, 9 lattice points, <=3 stored",
-            subst=index_subst(rng, 2, [0, 2, 4], 3, 3, 20, False, ALLINV), workers=4)
-    ctx.tlc("spatial/SpatialIndex.tla", "spatial/SpatialIndex_model.cfg", name="R1 SpatialIndex 1d, 4 lattice points, <=5 stored",
-            subst=index_subst(rng, 1, [0, 2, 4, 6], 4, 5, 16, False, ALLINV), workers=4)
+            subst=index_subst(rng, 2, [0, 2, 4], 3, 3, 49 if thorough else 9, False, ALLINV), workers=4)
+    ctx.tlc("spatial/SpatialIndex.tla", "spatial/SpatialIndex_model.cfg", name="R1 SpatialIndex 1d, 4 lattice points, <=%d stored" % (5 if thorough else 4),
+            subst=index_subst(rng, 1, [0, 2, 4, 6], 4, 5 if thorough else 4, 16, False, ALLINV), workers=4)
     # R2: every history, replayed
     for name, dim, coords, mb, mt, nq, reps, tier in INDEX:
         if tier == "thorough" and not thorough:
@@ -152,6 +152,29 @@ def hilbert(ctx, bins, thorough):
                               {"trace": dst, "spec": "curve/HilbertTrace.tla", "cfg_file": "curve/HilbertTrace.cfg", "cfg": {}})
 
 
+def index_trace(ctx, bins, thorough):
+    """code->spec: large lattice point sets (dims 1..6, up to 2000 points, duplicates), bulk build +
+    inserts + queries on the live kdtree and a vptree of the same bag, judged by TLC."""
+    runs = [("a", ["runs=6", "maxn=700", "queries=5"])]
+    if thorough:
+        runs = [("a", ["runs=12", "maxn=2000", "queries=8"]), ("b", ["runs=12", "maxn=1200", "queries=10"])]
+    for bn, b in bins.items():
+        for name, args in runs:
+            tr = os.path.join(ctx.work, "index-trace-%s-%s.ndjson" % (name, bn))
+            summ = ctx.record(b, "spatial-trace", tr, args + ["salt=" + name], name="R3 record index trace %s [%s]" % (name, bn))
+            ok, st = ctx.validate("spatial/SpatialIndexTrace.tla", "spatial/SpatialIndexTrace.cfg", tr,
+                                  name="R3 validate index trace %s [%s]" % (name, bn), timeout=1500)
+            if ok:
+                ctx.traces += summ.get("traces", 0)
+                ctx.cases += summ.get("traces", 0)
+                ctx.nontrivial += summ.get("traces", 0)
+            else:
+                dst = keep_trace(ctx, tr, "index-trace-%s-%s" % (name, bn))
+                ctx.violation("spatial:index:trace-rejected", st.get("detail", "")[:700],
+                              {"trace": dst, "spec": "spatial/SpatialIndexTrace.tla",
+                               "cfg_file": "spatial/SpatialIndexTrace.cfg", "cfg": {}})
+
+
 def run(ctx):
     os.makedirs(os.path.join(SPECS, "lib"), exist_ok=True)
     thorough = ctx.tier == "thorough"
@@ -162,6 +185,7 @@ def run(ctx):
     spatial_index(ctx, bins, thorough)
     combin(ctx, bins, thorough)
     hilbert(ctx, bins, thorough)
+    index_trace(ctx, bins, thorough)
 
     ctx.assumptions += [
         "TLC/SANY and the CommunityModules Json module are trusted",
